@@ -208,6 +208,36 @@ def model_job(job):
             v = float("nan")
         ev.append({"kind": "map", "lat": bits(lat[i]), "lon": bits(lon[i]), "value": bits(v),
                    "_m": {"month": month, "lat_deg": float(np.degrees(lat[i])), "lon_deg": float(np.degrees(lon[i])), "value": v}})
+    # the lookup as the KERNEL makes it: sites a few 1e-7 deg either side of a cell edge (closer than binary32 can resolve a coordinate of
+    # that size) are handed to CphotAng.run together with the model object; the cloud top the model returns INSIDE the kernel call is
+    # recorded and judged against the cell that contains the site handed to the kernel
+    from nuspacesim.simulation.eas_optical.cphotang import CphotAng
+    kern = CphotAng(525.0)
+    seen = []
+
+    def recording(la, lo):
+        v = f(la, lo)
+        seen.append(float(v))
+        return v
+    for _ in range(job.get("kernel_sites", 24)):
+        klat = int(rng.integers(20, 340))
+        klon = int(rng.integers(5, 570))
+        d = float(rng.choice([2e-7, 5e-7, 1.5e-6])) * float(rng.choice([-1.0, 1.0]))
+        if rng.random() < 0.5:
+            la_s = np.radians(-90.0 + 0.5 * klat + d)
+            lo_s = np.radians(-180.0 + (360.0 / 575.0) * (klon + float(rng.uniform(0.2, 0.8))))
+        else:
+            la_s = np.radians(-90.0 + 0.5 * (klat + float(rng.uniform(0.2, 0.8))))
+            lo_s = np.radians(-180.0 + (360.0 / 575.0) * klon + d)
+        seen.clear()
+        try:
+            kern.run(np.radians(10.0), 2.0, 1.0, la_s, lo_s, recording)
+            v = seen[0] if seen else float("nan")
+        except Exception:
+            v = float("nan")
+        ev.append({"kind": "map", "lat": bits(float(la_s)), "lon": bits(float(lo_s)), "value": bits(v),
+                   "_m": {"month": month, "lat_deg": float(np.degrees(la_s)), "lon_deg": float(np.degrees(lo_s)), "value": v, "asked_by": "CphotAng.run",
+                          "offset_from_edge_deg": d}})
     return month, ev
 
 
